@@ -103,7 +103,7 @@ package types
 //@   requires wf_ctx(ctx)
 
 //@ func (h ITrxHandler_TrxAcctHandler) ExecuteTrx(ctx)
-//@   requires wf_ctx(ctx)
+//@   requires wf_ctx(ctx) && amounts_fit(ctx)
 //@   requires ctx.Exec ==> sig_ok(ctx.Tx, ctx.ChainID)                                                      [C03]
 //@   requires ctx.Sender.Nonce == ctx.Tx.Nonce                                                              [C04]
 //@   modifies everything
@@ -121,6 +121,7 @@ package types
 //@ func (h ITrxHandler_TrxEVMHandler) ExecuteTrx(ctx)
 //@   requires wf_ctx(ctx)
 //@   requires ctx.Tx.Type == 6 || (ctx.Tx.Type == 1 && ctx.Receiver.Code != nil)
+//@   requires amounts_fit(ctx)
 //@   requires ctx.Exec ==> sig_ok(ctx.Tx, ctx.ChainID)                                                      [C03]
 //@   requires ctx.Sender.Nonce == ctx.Tx.Nonce                                                              [C04]
 //@   modifies everything
